@@ -2,7 +2,7 @@ ALL_IDS = ["C%02d" % i for i in range(1, 21)]
 NOT_BUILT_REASON = {}
 # properties registered in MANIFEST.json (their checks are silent on the unchanged tree and validated
 # against breaks); everything else is listed under not_applicable with the reason "not built yet".
-CLAIMED = ["C01", "C02", "C03", "C06", "C07", "C08", "C11", "C13", "C18", "C19"]
+CLAIMED = ["C01", "C02", "C03", "C04", "C06", "C07", "C08", "C10", "C11", "C12", "C13", "C14", "C15", "C18", "C19"]
 
 ENGINES = [
     {"name": "config-oracle", "path": "harness/config", "serves_properties": ["C08"],
@@ -13,6 +13,10 @@ ENGINES = [
      "kind_free_text": "deterministic cluster simulator: real controller + allocator + ServiceReconciler + PoolReconciler on an in-memory API store, seeded scheduler with yield points outside the Listener lock, crash points, failing status writes; reference-model oracles at handler returns and at quiescence"},
     {"name": "l2-linearizability", "path": "harness/layer2", "serves_properties": ["C13"],
      "kind_free_text": "concurrent histories on the real layer-2 announcer + ARP responder over an in-memory PacketConn, checked with porcupine against a sequential model, under the race detector"},
+    {"name": "direct-speaker", "path": "harness/speaker/direct_oracle_test.go c04/c10/c12", "serves_properties": ["C04", "C10", "C12"],
+     "kind_free_text": "direct calls of the real layer-2 / BGP ShouldAnnounce decisions on generated and enumerated cluster views, one controller per node, eligibility / election oracle written from the statements"},
+    {"name": "frr-interp", "path": "harness/lib/frrinterp.go + harness/frr/c14_test.go + harness/frrk8s/c15_test.go", "serves_properties": ["C14", "C15"],
+     "kind_free_text": "translation validation: interpreter of the generated FRR configuration text (prefix-lists, route-maps, networks, neighbors) and structural oracle on the FRRConfiguration resource, cross-checked against each other"},
     {"name": "conversion", "path": "harness/controllers/c18_test.go", "serves_properties": ["C18"],
      "kind_free_text": "toConfig on all pool permutations x shuffles x repetitions; real Config/Pool reconcilers on a fake client counting handler calls"},
     {"name": "debounce", "path": "harness/frr/c19_test.go + harness/controllers/c19_test.go", "serves_properties": ["C19"],
@@ -45,6 +49,13 @@ META = {
         "note": _BOX_NOTE,
         "technique": "runtime monitoring: frame-condition oracle over recorded status writes between quiescent points",
     },
+    "C04": {
+        "engine": "direct-speaker",
+        "text": "One real layer2Controller per node is fed the same generated / enumerated view; the set of announcers must be a singleton iff the oracle's eligible set is non-empty, the announcer must be eligible and be the sha256 argmin, and services sharing the address must elect the same node. Thorough tier enumerates the bounded 3-node space completely (16.7 M views) plus random 4-6 node views.",
+        "design_ref": "DESIGN.md 2/C04",
+        "note": "The membership view is an input (memberlist is not run). Exhaustive only for the bounded space; quick tier samples it.",
+        "technique": "runtime monitoring: eligibility/election oracle over decisions of the real controllers on enumerated views",
+    },
     "C06": {
         "engine": "box-controller",
         "text": "Crash-point x fault-plan enumeration: each base history is executed crash-free to enumerate its crash points (scheduler yields, before/after every status write, after every event), then re-executed with a crash at selected points (all status-write boundaries first) and failing status writes; after the restarted controller is quiescent the oracle checks that recorded admissible addresses were kept, nothing recorded was taken by an unrecorded service, exclusivity and pool policy hold and memory == statuses.",
@@ -66,6 +77,13 @@ META = {
         "note": "Trusted: the oracle's own parser (net/netip + math/big), Kubernetes label-selector matching (shared library). Over-rejection is not judged.",
         "technique": "runtime monitoring: reference-model oracle over generated inputs executed on the real parser",
     },
+    "C10": {
+        "engine": "direct-speaker",
+        "text": "The real bgpController.ShouldAnnounce is evaluated on enumerated (thorough: all layouts of <= 3 endpoint entries x slice splits x node flags x policies, 10.3 M decisions) and random endpoint layouts and compared with the iff rule of the statement (per-address conjunction over entries, disjunction over addresses).",
+        "design_ref": "DESIGN.md 2/C10",
+        "note": "Ambiguous Local cross-node conflicts are counted, not judged.",
+        "technique": "runtime monitoring: iff oracle over decisions of the real controller on enumerated endpoint layouts",
+    },
     "C11": {
         "engine": "box-controller",
         "text": "After every allocator operation / handler return: the bookkeeping must equal that of a fresh allocator rebuilt from the surviving assignments; per pool the counters must equal the distinct in-use addresses and assigned+available the oracle's usable count (math/big, saturating), never negative; every released address is probed (assign + unassign of a probe service must succeed and leave no trace).",
@@ -73,12 +91,33 @@ META = {
         "note": _BOX_NOTE,
         "technique": "runtime monitoring: rebuild-and-compare + counting oracle + release probes on hooked allocator state",
     },
+    "C12": {
+        "engine": "direct-speaker",
+        "text": "Metamorphic relation between a view and perturbed views: every removed / added subset is realised through 7 mechanisms (speaker death, NetworkUnavailable, exclude label, advertisement deselect, lost local endpoint, node removed, mixed); the announcer may change only on owner loss or when a newcomer wins, never between two surviving nodes; identical across speakers, services on the address and listing orders; 6-step histories with reused controllers vs fresh ones.",
+        "design_ref": "DESIGN.md 2/C12",
+        "note": "Thorough covers every subset for all pairs with |E| <= 5.",
+        "technique": "runtime monitoring: metamorphic oracle over decisions of the real controllers",
+    },
     "C13": {
         "engine": "l2-linearizability",
         "text": "Concurrent histories (3 mutators, 2 requesters, 1 gratuitous spammer) on the real Announce + arpResponder.processRequest over an in-memory PacketConn are recorded at the boundary with one logical clock and checked with porcupine against a sequential model (who holds which address with which interface scope); never-answer frames, refcounts at quiescent points and silence after the last withdraw are checked directly; all under the race detector.",
         "design_ref": "DESIGN.md 2/C13",
         "note": "Trusted: porcupine v1.3.0; the harness's ARP codec. NDP only through the shouldAnnounce decision; the real spamLoop cadence is not waited for.",
         "technique": "runtime monitoring: linearizability checking of recorded concurrent histories (porcupine) + race detector",
+    },
+    "C14": {
+        "engine": "frr-interp",
+        "text": "Translation validation: for generated session sets (1-4 sessions over 1-2 VRFs, numbered / unnumbered, iBGP / eBGP / dynamic ASN, all session parameters, 0-6 advertisements from overlapping prefixes with different communities and local preferences) the text produced by the real createConfig + templates is parsed and interpreted with FRR's documented prefix-list / route-map / network semantics; per neighbor the offered prefixes, local preference and communities must equal the request, every other prefix must be denied outbound, everything inbound, networks per router must equal the union, parameters must sit on the right neighbor, and the text must not depend on creation order.",
+        "design_ref": "DESIGN.md 2/C14",
+        "note": "Trusted base: harness/lib/frrinterp.go (my reading of FRR semantics; no FRR binary in the sandbox). Session sets the real FRR-mode validator rejects are skipped.",
+        "technique": "translation validation: interpreter of the generated configuration text vs the requested routes",
+    },
+    "C15": {
+        "engine": "frr-interp",
+        "text": "Structural oracle on the FRRConfiguration handed to the config-changed callback (allowed prefixes sorted / de-duplicated, communities and local preferences listed for exactly their requesters, router prefixes == union, node selector == this node, session parameters, password xor secret, order independence) and agreement of the per-neighbor map prefix -> (local preference, communities) with the C14 interpretation of the FRR text rendered from the same sessions.",
+        "design_ref": "DESIGN.md 2/C15",
+        "note": "SourceAddress is not demanded. Cross-check skipped for session sets FRR mode refuses.",
+        "technique": "translation validation: structural oracle + cross-check against the interpreted FRR text",
     },
     "C18": {
         "engine": "conversion",
